@@ -10,9 +10,14 @@ from ..acc import Acc, merge_all
 from ..explore import history as H
 
 LEVEL = "model_checking"
-DEPTH = {"quick": 5, "thorough": 6}
-TEXTS = ["4x + 2", "4x+2", "4x +", ") 4", "", "x = 2y^2"]
-OPS = [("parse", t) for t in TEXTS] + [("tokenize", t) for t in TEXTS] + [("clear",), ("consume",), ("reverse",), ("extend",)]
+DEPTH = {"quick": (4, 5), "thorough": (5, 6)}  # (full alphabet, core alphabet)
+CORE_TEXTS = ["4x + 2", "4x+2", "4x +", ") 4", "", "x = 2y^2"]
+# texts that collide under whitespace removal, and a failing text that leaves 64 groups open
+EXTRA_TEXTS = ["12x", "1 2x", "(" * 64 + "x", "(x + 1)(x - 1)"]
+TEXTS = CORE_TEXTS + EXTRA_TEXTS
+MUTATORS = [("clear",), ("consume",), ("reverse",), ("extend",)]
+OPS_CORE = [("parse", t) for t in CORE_TEXTS] + [("tokenize", t) for t in CORE_TEXTS] + MUTATORS
+OPS = [("parse", t) for t in TEXTS] + [("tokenize", t) for t in TEXTS] + MUTATORS
 
 
 def opname(op):
@@ -110,10 +115,13 @@ def shrink(ops):
 
 
 def _work(task):
-    depth, lo, hi = task
+    which, depth, lo, hi = task
+    alphabet = OPS if which == "full" else OPS_CORE
     acc = Acc()
-    for idxs in H.sequences(len(OPS), depth, lo, hi):
-        ops = [OPS[i] for i in idxs]
+    for idxs in H.sequences(len(alphabet), depth, lo, hi):
+        ops = [alphabet[i] for i in idxs]
+        if which == "core" and depth < DEPTH_FULL[0] + 1:
+            pass
         acc.count("histories")
         acc.count("steps", len(ops))
         texts = [o[1] for o in ops if len(o) > 1]
@@ -127,13 +135,20 @@ def _work(task):
             acc.violation(core, {"ops": [list(o) for o in small]},
                           f"step {b[0] + 1} {opname(b[1])}: got {describe(b[2])}, fresh parser gives {describe(b[3])}")
     if lo == 0:
-        acc.sample([opname(OPS[i]) for i in H.G.nth(list(range(len(OPS))), depth, max(lo, hi // 2))])
+        acc.sample([opname(alphabet[i])[:40] for i in H.G.nth(list(range(len(alphabet))), depth, max(lo, hi // 2))])
     return acc
 
 
+DEPTH_FULL = [0]
+
+
 def run(tier, seed):
-    D = DEPTH[tier]
-    tasks = H.tasks(len(OPS), D, parts=128)
+    DF, DC = DEPTH[tier]
+    DEPTH_FULL[0] = DF
+    D = DC
+    tasks = [("full",) + t for t in H.tasks(len(OPS), DF, parts=128)]
+    # the core alphabet one level deeper (lengths up to DF are already covered by the full alphabet)
+    tasks += [("core",) + t for t in H.tasks(len(OPS_CORE), DC, parts=128) if t[0] > DF]
     k = seed % len(tasks)
     tasks = tasks[k:] + tasks[:k]
     for kind, t in [o for o in OPS if len(o) > 1]:
@@ -144,9 +159,11 @@ def run(tier, seed):
         "transitions": acc.n["steps"],
         "traces_validated_against_impl": acc.n["histories"],
         "exhaustive": True,
-        "bound": {"max_operations": D, "alphabet": [opname(o) for o in OPS]},
+        "bound": {"max_operations_full_alphabet": DF, "max_operations_core_alphabet": DC,
+                  "alphabet": [opname(o)[:50] for o in OPS], "core_alphabet_size": len(OPS_CORE)},
         "histories_with_repeated_text_or_mutation": acc.n["nontrivial"],
-        "explanation": f"every operation sequence of length 1..{D} over {len(OPS)} operations, each replayed from a fresh parser "
+        "explanation": f"every operation sequence of length 1..{DF} over {len(OPS)} operations and of length {DF + 1}..{DC} over the "
+                       f"{len(OPS_CORE)} core operations, each replayed from a fresh parser "
                        "(a state is identified with the history reaching it, no merging); every returned tree / token list is "
                        "compared with a fresh parser's answer for the same text; every history is an execution of the implementation",
     }
